@@ -1,6 +1,6 @@
 (* C09 — the reversed operation list undoes the list on the abstract database states of
    Model/C09Ddl.v (C09_undo).  Part 1: the string order and the sorted-map algebra. *)
-From AV Require Import Model.Ops Spec.C09 Model.C09Ddl Proofs.OpsProof.
+From AV Require Import Model.Ops Spec.C09 Model.C09Ddl Proofs.OpsProof Proofs.C09ExactProof.
 
 (* ------------------------------------------------------------------ cmp_str is a strict total order *)
 
@@ -490,10 +490,13 @@ Qed.
 
 Lemma check_C09_sound i o : check_C09 i o = true -> C09_holds i o.
 Proof.
-  destruct i as [x|up|tables up], o as [r rr sql|down|down upup ok]; cbn [check_C09 C09_holds]; try discriminate; intros H.
-  - apply andb_true_iff in H as [H1 H2]; split.
+  destruct i as [x|up|tables up], o as [r rr df dfr sql|down|down upup ok]; cbn [check_C09 C09_holds]; try discriminate; intros H.
+  - apply andb_true_iff in H as [H H4]. apply andb_true_iff in H as [H H3]. apply andb_true_iff in H as [H1 H2].
+    split; [|split; [|split]].
     + intros x' ->. apply decb_true in H1. exact H1.
-    + intros x'' ->. apply andb_true_iff in H2 as [H2 H3]. split; [apply ddl_equivb_top_sound; auto|auto].
+    + intros x'' ->. apply andb_true_iff in H2 as [H2 H5]. split; [apply ddl_equivb_top_sound; auto|auto].
+    + intros ds ds' -> ->. eapply forall2b_Forall2; [|exact H3]. intros a b Hab; exact Hab.
+    + intros ds ->. apply Nat.eqb_eq. exact H4.
   - apply andb_true_iff in H as [H1 H2]; split.
     + intros d ->. apply andb_true_iff in H1 as [H1 H3]. apply decb_true in H1. split; auto.
     + intros u ->. eapply forall2b_Forall2; [|exact H2]. apply ddl_equivb_top_sound.
@@ -505,11 +508,14 @@ Qed.
 Lemma model_C09_holds i : inclass_C09 i = true -> C09_holds i (model_C09 i).
 Proof.
   destruct i as [x|up|tables up]; cbn [inclass_C09 model_C09 C09_holds]; intros Hs.
-  - split.
+  - apply andb_true_iff in Hs as [Hs Hd]. split; [|split; [|split]].
     + intros x' H. apply reverse_top_kind; auto.
     + intros x'' H. split; [|reflexivity].
       destruct (reverse_top x) as [x'|e] eqn:Hx; cbn [bind] in H; [|discriminate].
       destruct (reverse_top_involutive _ _ Hs Hx) as [y [Hy He]]. rewrite Hy in H. inversion H; subst. exact He.
+    + intros ds ds' H1 H2. destruct (reverse_top x) as [x'|e] eqn:Hx; cbn [bind] in H2; [|discriminate].
+      destruct (top_inv_diff _ _ _ Hd Hx H1) as (ds2 & Hds2 & Hf). rewrite Hds2 in H2. inversion H2; subst. exact Hf.
+    + intros ds H. apply as_diffs_length; auto.
   - split.
     + intros d H. split; [apply reverse_ops_kinds; auto|reflexivity].
     + intros u H.
@@ -517,4 +523,23 @@ Proof.
       destruct (reverse_ops_involutive _ _ Hs Hd) as [y [Hy He]]. rewrite Hy in H. inversion H; subst. exact He.
   - destruct (undo_ops up (db_of tables) (wf_db_of tables) Hs) as (d & B & Hd & Hap & Hback & _).
     exists d, B. repeat split; auto. apply reverse_ops_kinds; auto.
+Qed.
+
+(* ------------------------------------------------------------------ one operation; and what happens without the stored original *)
+
+(* DropTableCommentOp('t') built without existing_comment, on a table whose comment is 'o': it applies and reverses,
+   but the reversal (CreateTableCommentOp('t', None)) does not give the comment back *)
+Definition w_undo_db : db := [([0; 116]%N, mkTS [] [] [] (Some [111%N]) [] [] 0%N)].
+Definition w_undo_op : op := DropTableCommentOp [116%N] None None.
+Lemma undo_refuted_witness :
+  wf_db w_undo_db /\ undoable_op w_undo_op w_undo_db = false /\
+  exists o' B, reverse w_undo_op = Ok o' /\ apply_op w_undo_op w_undo_db = Some B /\
+               exists C, apply_op o' B = Some C /\ C <> w_undo_db.
+Proof.
+  split.
+  { split.
+    - cbn. split; [intros ? ? []|exact I].
+    - intros k ts H. cbn in H. destruct H as [H|[]]. inversion H; subst. repeat split; cbn; auto. }
+  split; [reflexivity|]. eexists; eexists. split; [reflexivity|]. split; [reflexivity|].
+  eexists. split; [vm_compute; reflexivity|]. vm_compute. discriminate.
 Qed.
